@@ -67,9 +67,9 @@ template<typename T_functor>
 struct retype_return_functor<void, T_functor> : public adapts<T_functor>
 {
   template<typename... T_arg>
-  inline void operator()(T_arg... a)
+  inline void operator()(T_arg&&... a)
   {
-    std::invoke(this->functor_, a...);
+    std::invoke(this->functor_, std::forward<T_arg>(a)...);
   }
 
   retype_return_functor() = default;
